@@ -201,6 +201,7 @@ class FunctionTerms:
         elif isinstance(s, ast.If):
             t = self.ev(s.test, env, ctx)
             self._last_test[id(s)] = t
+            self.emit("test", s, ctx, test=t)
             e1 = dict(env)
             e2 = dict(env)
             self._block(s.body, e1, ctx + (("if", t, True, s),))
@@ -248,6 +249,7 @@ class FunctionTerms:
                     env[name] = ("loopmod", name, uid)
             t = self.ev(s.test, env, ctx)
             frame = ("while", uid, t, s)
+            self.emit("test", s, ctx, test=t)
             self.emit("loop", s, ctx, uid=uid, iter=None, iter_node=None, frame=frame)
             self._block(s.body, env, ctx + (frame,))
             self.emit("loop_end", s, ctx, uid=uid)
